@@ -7,19 +7,53 @@ COMMON_ASSUME = [
     "vellum FST = sorted finite map, roaring = ascending set, snappy = round-trip codec: modelled by contract",
 ]
 
+def _p(runs, modules, theorems, files=None, **kw):
+    d = {"runs": runs, "lean_modules": modules, "lean_imports": modules, "theorems": theorems,
+         "lean_files": files or [], "assumptions": COMMON_ASSUME}
+    d.update(kw)
+    return d
+
+
+CODEC = ["ZapProofs.Props.Codec"]
+CODEC_FILES = ["ZapProofs/Props/Codec.lean", "ZapProofs/CodecLemmas.lean", "ZapProofs/CodecLemmasGen.lean",
+               "ZapProofs/CodecLemmasCrc.lean", "ZapProofs/CodecLemmasInt.lean"]
+BUILD_FILES = ["ZapProofs/Props/C01Build.lean", "ZapProofs/BuildLemmas.lean", "ZapProofs/BuildLemmas2.lean",
+               "ZapProofs/BuildLemmas3.lean", "ZapProofs/BuildLemmas4.lean"]
+POST_FILES = ["ZapProofs/Props/C07.lean", "ZapProofs/PostingLemmas.lean"]
+STORED_FILES = ["ZapProofs/Props/C02.lean", "ZapProofs/StoredLemmas.lean"]
+DV_FILES = ["ZapProofs/Props/C03.lean", "ZapProofs/DvLemmas.lean"]
+MERGE_FILES = ["ZapProofs/Props/C05.lean", "ZapProofs/Props/C06.lean", "ZapProofs/Props/C08.lean",
+               "ZapProofs/MergeLemmas.lean", "ZapProofs/DictLemmas.lean"]
+
 PROPS = {
-    "C01": {
-        "runs": [{"gen": "C01"}, {"gen": "ENC", "seed_offset": 7}],
-        "lean_modules": [], "theorems": [], "lean_imports": [], "lean_files": [],
-        "assumptions": COMMON_ASSUME,
-    },
-    "C02": {"runs": [{"gen": "C02"}], "assumptions": COMMON_ASSUME},
-    "C03": {"runs": [{"gen": "C03"}], "assumptions": COMMON_ASSUME},
-    "C04": {"runs": [{"gen": "C04"}], "assumptions": COMMON_ASSUME},
-    "C05": {"runs": [{"gen": "C05"}], "assumptions": COMMON_ASSUME},
-    "C06": {"runs": [{"gen": "C06"}], "assumptions": COMMON_ASSUME},
-    "C07": {"runs": [{"gen": "C07"}], "assumptions": COMMON_ASSUME},
-    "C08": {"runs": [{"gen": "C08"}], "assumptions": COMMON_ASSUME},
+    "C01": _p([{"gen": "C01"}, {"gen": "ENC", "seed_offset": 7}],
+              ["ZapProofs.Props.C01Build", "ZapProofs.Props.C07"],
+              ["Zap.C01_fieldTable", "Zap.C01_entries_all", "Zap.C01_termsSorted", "Zap.C01_empty", "Zap.C07_run"],
+              BUILD_FILES + POST_FILES),
+    "C02": _p([{"gen": "C02"}], ["ZapProofs.Props.C02"],
+              ["Zap.C02_stored", "Zap.C02_beyond", "Zap.C02_stop", "Zap.C02_docID", "Zap.C02_count",
+               "Zap.C02_docNumbers", "Zap.C02_maxkey_shortcut_sound"], STORED_FILES),
+    "C03": _p([{"gen": "C03"}], ["ZapProofs.Props.C03"],
+              ["Zap.C03_fresh_visit", "Zap.C03_visit_any_order", "Zap.C03_visit_sequence", "Zap.C03_reader_invariant",
+               "Zap.C03_dvFieldNames", "Zap.C03_content", "Zap.C03_visit_built"], DV_FILES + STORED_FILES),
+    "C04": _p([{"gen": "C04"}], [], []),
+    "C05": _p([{"gen": "C05"}], ["ZapProofs.Props.C05"],
+              ["Zap.remapSeg_spec", "Zap.remapAll_spec", "Zap.newDocCount_eq", "Zap.C05_consecutive", "Zap.C05_bijection",
+               "Zap.C05_count", "Zap.C05_maps", "Zap.C05_zero", "Zap.C05_stored", "Zap.mergedFieldNames_spec",
+               "Zap.fieldsSame_sound"], MERGE_FILES),
+    "C06": _p([{"gen": "C06"}], ["ZapProofs.Props.C06"],
+              ["Zap.enumerate_spec", "Zap.C06_dict", "Zap.C06_sorted", "Zap.C06_term", "Zap.C06_same_unchanged"], MERGE_FILES),
+    "C07": _p([{"gen": "C07"}], ["ZapProofs.Props.C07"],
+              ["Zap.C07_run", "Zap.C07_count", "Zap.C07_live", "Zap.C07_replace"], POST_FILES),
+    "C08": _p([{"gen": "C08"}], ["ZapProofs.Props.C08"],
+              ["Zap.C08_dict", "Zap.C08_stale_1hit_counterexample", "Zap.C08_merge_writes_wf"], MERGE_FILES),
+    "C10": _p([{"gen": "C10"}], [], []),
+    "C11": _p([{"gen": "C11"}], [], []),
+    "C12": _p([{"gen": "C12"}], [], []),
+    "C13": _p([{"gen": "C13"}], [], []),
+    "C17": _p([{"gen": "C17"}], [], []),
+    "C18": _p([{"gen": "C18"}], [], []),
+    "C20": _p([{"gen": "C20"}], [], []),
 }
 
 
